@@ -14,6 +14,8 @@ EXPLANATION = (
     "uses exactly that safety.")
 NOT_DECIDED = "arithmetic of calc_normal/calc_intersections for the admitted surfaces; tolerances"
 
+TECHNIQUE = ('compile-time static_assert witness over the surface-type traits; CFG guard dominance and reaching-definition shape (running min from +inf inside the loop) for the safety reductions')
+
 UNITS = [
     "src/orange/OrangeParams.cc",
     "src/orange/detail/UnitInserter.cc",
